@@ -194,7 +194,11 @@ def check(run, repo):
         'per-molecule, per-mass): wrapper == twin * R(units) (* T for energies, with the unit string extended by /K), '
         'R per mass = R(molar)/(sum of atomic weights * g->mass-unit). Because the species/mix getters are '
         'uninterpreted atoms named by their arguments, an option that is not forwarded (P, S_elements, rev, '
-        'raise_error...) changes the normal form and is reported.')
+        'raise_error...) changes the normal form and is reported. Options: S_elements left out, True and False; every '
+        'boolean option of the StatMech wrappers flipped (verbose: the vector of mode contributions, element by '
+        'element); reactions with and without a transition state. Per-mass units: species with a composition '
+        '(StatMech, Nasa, Nasa9, Shomate, and a BEP relation for the seven wrappers of the base class), and objects '
+        'without one (no attribute elements / elements=None), which have no molar mass and must refuse.')
     run.assumptions = ['unit model of pmutt.constants verified by C12', 'species and mix getters are arbitrary '
                        'functions of the arguments they receive']
     run.undecided = ['numeric values; array-valued T beyond what C02/C13 decide']
